@@ -786,3 +786,389 @@ Proof.
   destruct (sanitize_safe name) as [Hne Hall]. split; [exact Hne|].
   intros c Hin. apply safe_cp_spec. exact (proj1 (Hall c Hin)).
 Qed.
+
+(* ------------------------------------------------------------------------------------------ *)
+(* str.encode() of Unicode scalar values is valid UTF-8 *)
+Definition scalar (c : N) : Prop := (c < 55296 \/ (57344 <= c /\ c < 1114112))%N.
+
+Ltac decide_bool :=
+  repeat match goal with
+  | |- context [N.ltb ?a ?b] => first [ rewrite (proj2 (N.ltb_lt a b)) by lia | rewrite (proj2 (N.ltb_ge a b)) by lia ]
+  | |- context [N.leb ?a ?b] => first [ rewrite (proj2 (N.leb_le a b)) by lia | rewrite (proj2 (N.leb_gt a b)) by lia ]
+  | |- context [N.eqb ?a ?b] => first [ rewrite (proj2 (N.eqb_eq a b)) by lia | rewrite (proj2 (N.eqb_neq a b)) by lia ]
+  end.
+
+Lemma utf8_cp_small c : scalar c -> Forall (fun x => (x < 256)%N) (utf8_cp c).
+Proof.
+  intro Hs. unfold utf8_cp, scalar in *.
+  destruct (N.ltb_spec c 128); [|destruct (N.ltb_spec c 2048); [|destruct (N.ltb_spec c 65536)]];
+    repeat constructor; lia.
+Qed.
+
+Lemma utf8_ok_n_enc : forall s fuel, Forall scalar s -> (length (flat_map utf8_cp s) <= fuel)%nat ->
+  utf8_ok_n fuel (flat_map utf8_cp s) = true.
+Proof.
+  induction s as [|c r IH]; intros fuel Hs Hl.
+  - destruct fuel; reflexivity.
+  - inversion Hs as [|? ? Hc Hr]; subst. cbn [flat_map] in *. unfold scalar in Hc.
+    destruct fuel as [|k].
+    { exfalso. rewrite app_length in Hl. unfold utf8_cp in Hl.
+      destruct (c <? 128)%N; [|destruct (c <? 2048)%N; [|destruct (c <? 65536)%N]]; simpl in Hl; lia. }
+    rewrite app_length in Hl. unfold utf8_cp in *.
+    destruct (N.ltb_spec c 128); [|destruct (N.ltb_spec c 2048); [|destruct (N.ltb_spec c 65536)]];
+      cbn [app length] in Hl |- *; cbn [utf8_ok_n]; unfold in_rng, cont.
+    + decide_bool. apply IH; [exact Hr | lia].
+    + decide_bool. cbn [andb]. apply IH; [exact Hr | lia].
+    + destruct (N.eqb_spec (224 + c / 4096) 224); [|destruct (N.eqb_spec (224 + c / 4096) 237)];
+        decide_bool; cbn [andb]; (apply IH; [exact Hr | lia]).
+    + destruct (N.eqb_spec (240 + c / 262144) 240); [|destruct (N.eqb_spec (240 + c / 262144) 244)];
+        decide_bool; cbn [andb]; (apply IH; [exact Hr | lia]).
+Qed.
+
+Lemma Ns_of_bytes_of_Ns l : Forall (fun x => (x < 256)%N) l -> Ns_of_bytes (bytes_of_Ns l) = l.
+Proof.
+  induction 1 as [|x r Hx Hr IH]; [reflexivity|].
+  unfold Ns_of_bytes, bytes_of_Ns in *. cbn [map]. rewrite byte_of_N_small by exact Hx. f_equal. exact IH.
+Qed.
+
+Lemma flat_map_small s : Forall scalar s -> Forall (fun x => (x < 256)%N) (flat_map utf8_cp s).
+Proof.
+  induction 1 as [|c r Hc Hr IH]; [constructor|]. cbn [flat_map]. apply Forall_app. split; [apply utf8_cp_small; exact Hc | exact IH].
+Qed.
+
+Theorem utf8_enc_valid s : Forall scalar s -> utf8_ok (utf8_enc s) = true.
+Proof.
+  intro Hs. unfold utf8_ok, utf8_enc. rewrite Ns_of_bytes_of_Ns by (apply flat_map_small; exact Hs).
+  apply utf8_ok_n_enc; [exact Hs|]. unfold bytes_of_Ns. rewrite map_length. apply le_n.
+Qed.
+
+Lemma default_scalar c : In c default_name -> scalar c.
+Proof.
+  unfold default_name. cbn [In]. intro Hin.
+  repeat (destruct Hin as [<- | Hin]; [left; reflexivity|]). contradiction.
+Qed.
+
+Lemma sanitize_scalar name : Forall scalar name -> Forall scalar (sanitize name).
+Proof.
+  intro Hn. apply Forall_forall. intros c Hin. rewrite Forall_forall in Hn.
+  destruct (proj2 (sanitize_safe name) c Hin) as [_ [Hi | Hi]]; [apply Hn; exact Hi | apply default_scalar; exact Hi].
+Qed.
+
+Theorem validate_accepts_created_scalar (H : bytes -> bytes) (E : bytes -> bytes -> bytes -> bytes) maxb name key ivf f :
+  H_length H -> E_length E -> Forall scalar name ->
+  let d := s_desc (build_stream H E maxb name key ivf f) in
+  validate H (to_sdj d) = Ok d.
+Proof.
+  intros HL HE Hs. apply validate_accepts_created; try assumption.
+  - apply utf8_enc_valid. exact Hs.
+  - apply utf8_enc_valid. apply sanitize_scalar. exact Hs.
+Qed.
+
+(* ------------------------------------------------------------------------------------------ *)
+(* the ciphertext lengths of a published file, in N arithmetic (what the harness compares on true 2 MiB runs) *)
+Lemma ct_len_of_nat n : N.of_nat (16 * (n / 16 + 1)) = ct_len (N.of_nat n).
+Proof.
+  unfold ct_len. rewrite Nat2N.inj_mul, Nat2N.inj_add, Nat2N.inj_div. reflexivity.
+Qed.
+
+Lemma map_repeat {A B} (g : A -> B) x n : map g (repeat x n) = repeat (g x) n.
+Proof. induction n; simpl; congruence. Qed.
+
+Lemma make_blobs_ct_lengths (H : bytes -> bytes) (E : bytes -> bytes -> bytes -> bytes) key ivf :
+  E_length E -> forall ps n,
+  map (fun c => N.of_nat (length c)) (map snd (make_blobs H E key ivf n ps)) =
+  map (fun l => ct_len (N.of_nat l)) (map (@length byte) ps).
+Proof.
+  intros HE. induction ps as [|p r IH]; intro n; [reflexivity|].
+  cbn [C02.make_blobs map snd make_blob]. rewrite IH, HE, ct_len_of_nat. reflexivity.
+Qed.
+
+Theorem ciphertext_lengths (H : bytes -> bytes) (E : bytes -> bytes -> bytes -> bytes) maxb name key ivf f :
+  E_length E -> (2 <= maxb)%nat ->
+  map (fun c => N.of_nat (length c)) (s_cts (build_stream H E maxb name key ivf f)) =
+  expected_lengths (N.of_nat maxb) (N.of_nat (length f)).
+Proof.
+  intros HE Hm. destruct (build_blobs H E maxb name key ivf f) as (_ & Hc & _). rewrite Hc.
+  rewrite make_blobs_ct_lengths by exact HE. rewrite split_lengths by exact Hm.
+  unfold expected_lengths.
+  assert (Hc1 : (N.of_nat maxb - 1 = N.of_nat (maxb - 1))%N) by lia.
+  rewrite Hc1. set (c := (maxb - 1)%nat). assert (0 < c)%nat by (unfold c; lia).
+  destruct (N.eqb_spec (N.of_nat c) 0) as [E0|_]; [lia|].
+  rewrite map_app, !map_repeat. rewrite <- Nat2N.inj_div, Nat2N.id, <- Nat2N.inj_mod.
+  f_equal.
+  destruct (Nat.eqb_spec (length f mod c) 0) as [E0|E0].
+  - rewrite E0. reflexivity.
+  - destruct (N.eqb_spec (N.of_nat (length f mod c)) 0) as [E1|_]; [lia | reflexivity].
+Qed.
+
+(* ------------------------------------------------------------------------------------------ *)
+(* the sd blob (as_json) determines the descriptor: sd_hash binds the content up to an H collision *)
+
+Lemma byte_of_N_neq a b : (a < 256)%N -> (b < 256)%N -> a <> b -> byte_of_N a <> byte_of_N b.
+Proof.
+  intros Ha Hb Hne E0. apply (f_equal N_of_byte) in E0. rewrite !byte_of_N_small in E0 by assumption. contradiction.
+Qed.
+
+(* a prefix of bytes satisfying P followed by a byte that does not is determined by the whole *)
+Lemma span_unique (P : byte -> Prop) : forall a1 a2 c1 c2 r1 r2,
+  Forall P a1 -> Forall P a2 -> ~ P c1 -> ~ P c2 ->
+  a1 ++ c1 :: r1 = a2 ++ c2 :: r2 -> a1 = a2 /\ c1 :: r1 = c2 :: r2.
+Proof.
+  induction a1 as [|x a1 IH]; intros [|y a2] c1 c2 r1 r2 F1 F2 N1 N2 He; cbn [app] in He.
+  - split; [reflexivity | exact He].
+  - exfalso. inversion He; subst. inversion F2; subst. contradiction.
+  - exfalso. inversion He; subst. inversion F1; subst. contradiction.
+  - inversion He as [[Hx Hr]]. inversion F1; inversion F2; subst.
+    destruct (IH a2 c1 c2 r1 r2) as [-> Hc]; auto.
+Qed.
+
+(* bytes that json.dumps prints as themselves *)
+Definition plain (b : byte) : Prop := (32 <= N_of_byte b)%N /\ N_of_byte b <> 34%N /\ N_of_byte b <> 92%N.
+
+Lemma json_esc_plain b : plain b -> json_esc b = [b].
+Proof.
+  intros (H32 & H34 & H92). unfold json_esc.
+  repeat match goal with
+  | |- context [N.eqb ?a ?b] => rewrite (proj2 (N.eqb_neq a b)) by lia
+  | |- context [N.ltb ?a ?b] => rewrite (proj2 (N.ltb_ge a b)) by lia
+  end. reflexivity.
+Qed.
+
+Lemma json_str_plain s : Forall plain s -> json_str s = q :: s ++ [q].
+Proof.
+  intro Hs. unfold json_str. f_equal. f_equal.
+  induction Hs as [|b r Hb Hr IH]; [reflexivity|]. cbn [flat_map]. rewrite json_esc_plain by exact Hb. cbn [app]. f_equal. exact IH.
+Qed.
+
+Lemma q_not_plain : ~ plain q.
+Proof. unfold plain, q. rewrite byte_of_N_small by lia. intros (_ & H34 & _). apply H34. reflexivity. Qed.
+
+Lemma str_split s1 s2 r1 r2 : Forall plain s1 -> Forall plain s2 ->
+  json_str s1 ++ r1 = json_str s2 ++ r2 -> s1 = s2 /\ r1 = r2.
+Proof.
+  intros F1 F2 He. rewrite !json_str_plain in He by assumption.
+  cbn [app] in He. inversion He as [He']. rewrite <- !app_assoc in He'. cbn [app] in He'.
+  destruct (span_unique plain s1 s2 q q r1 r2 F1 F2 q_not_plain q_not_plain He') as [-> Hr].
+  inversion Hr. split; reflexivity.
+Qed.
+
+Definition numch (b : byte) : Prop := is_digit b = true \/ b = minus_byte.
+
+Lemma dec_of_N_numch n : Forall numch (dec_of_N n).
+Proof.
+  pose proof (dec_of_N_all_digits n) as Hd. apply Forall_forall. intros b Hin. left.
+  rewrite forallb_forall in Hd. exact (Hd b Hin).
+Qed.
+
+Lemma dec_of_Z_numch z : Forall numch (dec_of_Z z).
+Proof.
+  destruct z; cbn [dec_of_Z]; try apply dec_of_N_numch. constructor; [right; reflexivity | apply dec_of_N_numch].
+Qed.
+
+Lemma num_split z1 z2 c1 c2 r1 r2 : ~ numch c1 -> ~ numch c2 ->
+  dec_of_Z z1 ++ c1 :: r1 = dec_of_Z z2 ++ c2 :: r2 -> z1 = z2 /\ c1 :: r1 = c2 :: r2.
+Proof.
+  intros N1 N2 He.
+  destruct (span_unique numch _ _ c1 c2 r1 r2 (dec_of_Z_numch z1) (dec_of_Z_numch z2) N1 N2 He) as [Hz Hr].
+  split; [apply dec_of_Z_inj; exact Hz | exact Hr].
+Qed.
+
+Lemma not_numch n : (n < 256)%N -> (n < 48 \/ 57 < n)%N -> n <> 45%N -> ~ numch (byte_of_N n).
+Proof.
+  intros Hn Hr H45 [Hd | Hm].
+  - unfold is_digit in Hd. rewrite byte_of_N_small in Hd by exact Hn.
+    apply andb_true_iff in Hd. destruct Hd as [H1 H2]. apply N.leb_le in H1, H2. lia.
+  - unfold minus_byte in Hm. revert Hm. apply byte_of_N_neq; lia.
+Qed.
+
+Definition colon : bytes := ascii [58; 32]%N.
+Definition B (n : N) : byte := byte_of_N n.
+
+Lemma json_blob_flat b t :
+  json_blob b ++ t =
+  B 123 :: (match b_hash (as_dict b) with
+            | Some h => json_str (ascii k_blob_hash) ++ colon ++ json_str h ++ [B 44; B 32]
+            | None => [] end) ++
+  json_str (ascii k_blob_num) ++ colon ++ dec_of_Z (b_num b) ++ B 44 :: B 32 ::
+  json_str (ascii k_iv) ++ colon ++ json_str (b_iv b) ++ B 44 :: B 32 ::
+  json_str (ascii k_length) ++ colon ++ dec_of_Z (b_len b) ++ B 125 :: t.
+Proof.
+  unfold json_blob, obj, kv, comma, colon, B.
+  destruct (b_hash (as_dict b)) as [h|]; cbn [app join b_num b_len b_iv as_dict];
+    repeat (rewrite <- !app_assoc; cbn [app]);
+    change (ascii [44%N; 32%N]) with [byte_of_N 44; byte_of_N 32]; cbn [app]; reflexivity.
+Qed.
+
+Lemma ascii_plain l : Forall (fun n => 32 <= n < 127 /\ n <> 34 /\ n <> 92)%N l -> Forall plain (ascii l).
+Proof.
+  induction 1 as [|n r Hn Hr IH]; [constructor|]. constructor; [|exact IH].
+  unfold plain. rewrite byte_of_N_small by lia. lia.
+Qed.
+
+Ltac key_plain := apply ascii_plain; repeat constructor; lia.
+
+Lemma keys_plain : Forall plain (ascii k_blob_hash) /\ Forall plain (ascii k_blob_num) /\ Forall plain (ascii k_iv) /\
+  Forall plain (ascii k_length) /\ Forall plain (ascii k_blobs) /\ Forall plain (ascii k_key) /\
+  Forall plain (ascii k_stream_hash) /\ Forall plain (ascii k_stream_name) /\ Forall plain (ascii k_stream_type) /\
+  Forall plain (ascii k_sugg) /\ Forall plain (ascii v_lbryfile).
+Proof. repeat split; key_plain. Qed.
+
+Definition plain_blob (b : blob) : Prop :=
+  Forall plain (b_iv b) /\ match b_hash b with Some h => Forall plain h | None => True end.
+
+Lemma as_dict_plain b : plain_blob b -> plain_blob (as_dict b).
+Proof. destruct b as [n l iv [[|x h]|]]; unfold plain_blob; cbn; tauto. Qed.
+
+Lemma nn_B44 : ~ numch (B 44). Proof. apply not_numch; lia. Qed.
+Lemma nn_B125 : ~ numch (B 125). Proof. apply not_numch; lia. Qed.
+
+Lemma cons1_inv {A} (a : A) x y : a :: x = a :: y -> x = y.
+Proof. congruence. Qed.
+Lemma cons2_inv {A} (a b : A) x y : a :: b :: x = a :: b :: y -> x = y.
+Proof. congruence. Qed.
+
+Lemma blob_split b1 b2 t1 t2 : plain_blob b1 -> plain_blob b2 ->
+  json_blob b1 ++ t1 = json_blob b2 ++ t2 -> as_dict b1 = as_dict b2 /\ t1 = t2.
+Proof.
+  intros P1 P2 He. rewrite !json_blob_flat in He.
+  apply as_dict_plain in P1, P2.
+  destruct keys_plain as (Kh & Kn & Ki & Kl & _).
+  assert (Hd1 : as_dict b1 = mkBlob (b_num b1) (b_len b1) (b_iv b1) (b_hash (as_dict b1))) by (destruct b1; reflexivity).
+  assert (Hd2 : as_dict b2 = mkBlob (b_num b2) (b_len b2) (b_iv b2) (b_hash (as_dict b2))) by (destruct b2; reflexivity).
+  destruct P1 as [Pi1 Ph1], P2 as [Pi2 Ph2]. cbn [as_dict b_iv] in Pi1, Pi2.
+  apply cons1_inv in He. rename He into He'.
+  assert (Hrest : forall x1 x2,
+    json_str (ascii k_blob_num) ++ colon ++ dec_of_Z (b_num b1) ++ B 44 :: B 32 ::
+      json_str (ascii k_iv) ++ colon ++ json_str (b_iv b1) ++ B 44 :: B 32 ::
+      json_str (ascii k_length) ++ colon ++ dec_of_Z (b_len b1) ++ B 125 :: x1 =
+    json_str (ascii k_blob_num) ++ colon ++ dec_of_Z (b_num b2) ++ B 44 :: B 32 ::
+      json_str (ascii k_iv) ++ colon ++ json_str (b_iv b2) ++ B 44 :: B 32 ::
+      json_str (ascii k_length) ++ colon ++ dec_of_Z (b_len b2) ++ B 125 :: x2 ->
+    b_num b1 = b_num b2 /\ b_iv b1 = b_iv b2 /\ b_len b1 = b_len b2 /\ x1 = x2).
+  { intros x1 x2 Hq.
+    apply app_inv_head in Hq. apply app_inv_head in Hq.
+    apply num_split in Hq; [|exact nn_B44 | exact nn_B44]. destruct Hq as [Hn Hq].
+    apply cons2_inv in Hq.
+    apply app_inv_head in Hq. apply app_inv_head in Hq.
+    apply str_split in Hq; [|assumption|assumption]. destruct Hq as [Hiv Hq].
+    apply cons2_inv in Hq.
+    apply app_inv_head in Hq. apply app_inv_head in Hq.
+    apply num_split in Hq; [|exact nn_B125 | exact nn_B125]. destruct Hq as [Hl Hq].
+    apply cons1_inv in Hq. repeat split; assumption. }
+  destruct (b_hash (as_dict b1)) as [h1|] eqn:E1, (b_hash (as_dict b2)) as [h2|] eqn:E2.
+  - rewrite <- !app_assoc in He'. apply app_inv_head in He'. apply app_inv_head in He'.
+    apply str_split in He'; [|assumption|assumption]. destruct He' as [-> He']. cbn [app] in He'.
+    apply cons2_inv in He'. destruct (Hrest _ _ He') as (Hn & Hi & Hl & Ht).
+    split; [|exact Ht]. rewrite Hd1, Hd2, Hn, Hi, Hl. reflexivity.
+  - exfalso. rewrite <- !app_assoc in He'. apply str_split in He'; [|assumption|assumption].
+    destruct He' as [Hk _]. apply (f_equal (@length byte)) in Hk. vm_compute in Hk. discriminate.
+  - exfalso. rewrite <- !app_assoc in He'. apply str_split in He'; [|assumption|assumption].
+    destruct He' as [Hk _]. apply (f_equal (@length byte)) in Hk. vm_compute in Hk. discriminate.
+  - cbn [app] in He'. destruct (Hrest _ _ He') as (Hn & Hi & Hl & Ht).
+    split; [|exact Ht]. rewrite Hd1, Hd2, Hn, Hi, Hl. reflexivity.
+Qed.
+
+Lemma json_blob_head b : exists r, json_blob b = B 123 :: r.
+Proof. unfold json_blob, obj. eexists. reflexivity. Qed.
+
+Lemma B_neq a b : (a < 256)%N -> (b < 256)%N -> a <> b -> B a <> B b.
+Proof. apply byte_of_N_neq. Qed.
+
+Lemma blobs_split : forall bs1 bs2 u1 u2, Forall plain_blob bs1 -> Forall plain_blob bs2 ->
+  join comma (map json_blob bs1) ++ B 93 :: u1 = join comma (map json_blob bs2) ++ B 93 :: u2 ->
+  map as_dict bs1 = map as_dict bs2 /\ u1 = u2.
+Proof.
+  induction bs1 as [|b1 r1 IH]; intros [|b2 r2] u1 u2 F1 F2 He.
+  - cbn in He. apply cons1_inv in He. split; [reflexivity | exact He].
+  - exfalso. cbn [map] in He. destruct (json_blob_head b2) as [x Hx].
+    destruct r2; cbn [map join app] in He; rewrite Hx in He; cbn [app] in He;
+      injection He as He0 _; revert He0; apply B_neq; lia.
+  - exfalso. cbn [map] in He. destruct (json_blob_head b1) as [x Hx].
+    destruct r1; cbn [map join app] in He; rewrite Hx in He; cbn [app] in He;
+      injection He as He0 _; revert He0; apply B_neq; lia.
+  - inversion F1 as [|? ? Pb1 Pr1]; inversion F2 as [|? ? Pb2 Pr2]; subst.
+    destruct r1 as [|y1 r1], r2 as [|y2 r2]; cbn [map join] in He.
+    + apply blob_split in He; [|assumption|assumption]. destruct He as [Hb Hu].
+      apply cons1_inv in Hu. split; [cbn [map]; rewrite Hb; reflexivity | exact Hu].
+    + exfalso. rewrite <- !app_assoc in He. apply blob_split in He; [|assumption|assumption]. destruct He as [_ Hu].
+      unfold comma in Hu. change (ascii [44; 32]%N) with [B 44; B 32] in Hu. cbn [app] in Hu.
+      injection Hu as Hu0 _. revert Hu0. apply B_neq; lia.
+    + exfalso. rewrite <- !app_assoc in He. apply blob_split in He; [|assumption|assumption]. destruct He as [_ Hu].
+      unfold comma in Hu. change (ascii [44; 32]%N) with [B 44; B 32] in Hu. cbn [app] in Hu.
+      injection Hu as Hu0 _. revert Hu0. apply B_neq; lia.
+    + rewrite <- !app_assoc in He. apply blob_split in He; [|assumption|assumption]. destruct He as [Hb Hu].
+      apply app_inv_head in Hu.
+      destruct (IH (y2 :: r2) u1 u2 Pr1 Pr2 Hu) as [Hr Hu'].
+      split; [|exact Hu']. cbn [map] in Hr |- *. rewrite Hb, Hr. reflexivity.
+Qed.
+
+Lemma as_json_flat d :
+  as_json d =
+  B 123 :: json_str (ascii k_blobs) ++ colon ++ B 91 :: join comma (map json_blob (d_blobs d)) ++ B 93 :: B 44 :: B 32 ::
+  json_str (ascii k_key) ++ colon ++ json_str (d_key d) ++ B 44 :: B 32 ::
+  json_str (ascii k_stream_hash) ++ colon ++ json_str (d_shash d) ++ B 44 :: B 32 ::
+  json_str (ascii k_stream_name) ++ colon ++ json_str (hex (d_name d)) ++ B 44 :: B 32 ::
+  json_str (ascii k_stream_type) ++ colon ++ json_str (ascii v_lbryfile) ++ B 44 :: B 32 ::
+  json_str (ascii k_sugg) ++ colon ++ json_str (hex (d_sugg d)) ++ [B 125].
+Proof.
+  unfold as_json, obj, arr, kv, comma, colon, B. cbn [join].
+  repeat (rewrite <- !app_assoc; cbn [app]);
+    change (ascii [44%N; 32%N]) with [byte_of_N 44; byte_of_N 32]; cbn [app]; reflexivity.
+Qed.
+
+Lemma hex_digit_plain n : (n < 16)%N -> plain (hex_digit n).
+Proof.
+  intro Hn. unfold plain, hex_digit. destruct (N.ltb_spec n 10);
+    [rewrite (byte_of_N_small (48 + n)) by lia | rewrite (byte_of_N_small (87 + n)) by lia]; lia.
+Qed.
+
+Lemma hex_plain b : Forall plain (hex b).
+Proof.
+  induction b as [|x r IH]; [constructor|]. pose proof (N_of_byte_lt x).
+  cbn [hex]. repeat constructor; try (apply hex_digit_plain; lia). exact IH.
+Qed.
+
+Definition plain_desc (d : desc) : Prop :=
+  Forall plain (d_key d) /\ Forall plain (d_shash d) /\ Forall plain_blob (d_blobs d).
+
+(* the sd blob determines the descriptor (blob hashes up to BlobInfo.as_dict's own None / '' identification) *)
+Theorem as_json_inj d1 d2 : plain_desc d1 -> plain_desc d2 -> as_json d1 = as_json d2 ->
+  d_name d1 = d_name d2 /\ d_key d1 = d_key d2 /\ d_sugg d1 = d_sugg d2 /\ d_shash d1 = d_shash d2 /\
+  map as_dict (d_blobs d1) = map as_dict (d_blobs d2).
+Proof.
+  intros (Pk1 & Ps1 & Pb1) (Pk2 & Ps2 & Pb2) He. rewrite !as_json_flat in He.
+  apply cons1_inv in He. apply app_inv_head in He. apply app_inv_head in He. apply cons1_inv in He.
+  apply blobs_split in He; [|assumption|assumption]. destruct He as [Hb He].
+  apply cons2_inv in He. apply app_inv_head in He. apply app_inv_head in He.
+  apply str_split in He; [|assumption|assumption]. destruct He as [Hk He].
+  apply cons2_inv in He. apply app_inv_head in He. apply app_inv_head in He.
+  apply str_split in He; [|assumption|assumption]. destruct He as [Hs He].
+  apply cons2_inv in He. apply app_inv_head in He. apply app_inv_head in He.
+  apply str_split in He; [|apply hex_plain|apply hex_plain]. destruct He as [Hn He].
+  apply cons2_inv in He. apply app_inv_head in He. apply app_inv_head in He. apply app_inv_head in He.
+  apply cons2_inv in He. apply app_inv_head in He. apply app_inv_head in He.
+  apply str_split in He; [|apply hex_plain|apply hex_plain]. destruct He as [Hg _].
+  apply hex_inj in Hn. apply hex_inj in Hg. repeat split; assumption.
+Qed.
+
+Theorem sd_hash_binding (H : bytes -> bytes) d1 d2 : plain_desc d1 -> plain_desc d2 -> sd_hash H d1 = sd_hash H d2 ->
+  (d_name d1 = d_name d2 /\ d_key d1 = d_key d2 /\ d_sugg d1 = d_sugg d2 /\ d_shash d1 = d_shash d2 /\
+   map as_dict (d_blobs d1) = map as_dict (d_blobs d2)) \/ collision H.
+Proof.
+  intros P1 P2 Hs. unfold sd_hash in Hs. apply hex_inj in Hs.
+  destruct (hash_eq H _ _ Hs) as [Hj | Hc]; [left; apply as_json_inj; assumption | right; exact Hc].
+Qed.
+
+(* descriptors made by create_stream are plain: every text field is hex *)
+Lemma created_plain (H : bytes -> bytes) (E : bytes -> bytes -> bytes -> bytes) maxb name key ivf f :
+  H_length H -> E_length E -> plain_desc (s_desc (build_stream H E maxb name key ivf f)).
+Proof.
+  intros HL HE. destruct (commitments H E maxb name key ivf f HL HE) as (Hsh & _).
+  destruct (build_blobs H E maxb name key ivf f) as (Hb & _ & Hk & _).
+  unfold plain_desc. rewrite Hk, Hsh, Hb. split; [apply hex_plain|]. split; [apply hex_plain|].
+  apply Forall_app. split.
+  - clear Hb. generalize 0%nat. induction (split maxb f) as [|p r IH]; intro n; [constructor|].
+    cbn [C02.make_blobs map fst make_blob]. constructor; [|apply IH].
+    unfold plain_blob. cbn. split; apply hex_plain.
+  - constructor; [|constructor]. unfold plain_blob, terminator. cbn. split; [apply hex_plain | exact I].
+Qed.
